@@ -7,6 +7,7 @@ EXTENDS Keystore, TraceKit
 TNames == {"empty", "a", "unicode", "long64", "nested"}
 TPasswords == {"empty", "a", "unicode", "long64", "upperA"}
 TSlots == {1, 2}
+TGiven == 0..31
 
 VARIABLES l, bad, notes
 
@@ -15,7 +16,7 @@ ObsKey(e) == IF e.panicked THEN "panicked" ELSE IF e.err = "" THEN (IF e.created
 ObsOk(e)  == IF e.panicked THEN "panicked" ELSE IF e.err = "" THEN "ok" ELSE IF e.invalid THEN "invalid" ELSE "error"
 
 Verdict(e) ==
-     (IF e.op \in {"key", "exists", "export", "import"} THEN Clause("C36:no_panic", ~e.panicked) ELSE <<>>)
+     (IF e.op \in {"key", "exists", "export", "import", "importpriv"} THEN Clause("C36:no_panic", ~e.panicked) ELSE <<>>)
   \o (IF e.op = "key"
       THEN LET want == KeyOutcome(box, e.name, e.pw)  got == ObsKey(e)
            IN    Clause("C36:right_password_returns_the_stored_key",
@@ -36,6 +37,13 @@ Verdict(e) ==
               \o Clause("C36:import_needs_the_named_key_and_an_exported_key", want \in {"missing", "badblob"} => got # "ok")
       ELSE <<>>)
 
+  \o (IF e.op = "importpriv"
+      THEN LET want == ImportPrivOutcome(box, e.name, e.pw)  got == ObsOk(e)
+           IN    Clause("C36:key_is_stored_under_name_and_right_password", want = "ok" => got = "ok")
+              \o Clause("C36:other_password_rejected_as_invalid", want = "invalid" => got = "invalid")
+              \o Clause("C36:import_needs_the_named_key_and_an_exported_key", want = "missing" => got # "ok")
+      ELSE <<>>)
+
 \* conformance notes: Exists is not part of the statement
 Note(l_, e) ==
   IF e.op = "exists" /\ ~e.panicked /\ (e.found # Present(box, e.name))
@@ -48,6 +56,8 @@ PostBox(e) ==
                           THEN [box EXCEPT ![e.name] = [key |-> e.kid, pw |-> e.pw]]
                           ELSE IF ObsKey(e) \in {"created", "opened"} \/ Present(box, e.name) THEN KeyBox(box, nkeys, e.name, e.pw) ELSE box
     [] e.op = "import" -> IF ObsOk(e) = "ok" THEN ImportBox(box, e.name, e.pw, blobs[e.slot]) ELSE box
+    \* the statement-level history: the given key is what the caller stored when the call reported success
+    [] e.op = "importpriv" -> IF ObsOk(e) = "ok" /\ Present(box, e.name) THEN [box EXCEPT ![e.name] = [key |-> GivenId(e.lz), pw |-> e.pw]] ELSE box
     [] OTHER           -> box
 PostBlobs(e) ==
   CASE e.op = "reset"  -> [s \in BlobSlots |-> None]
@@ -55,7 +65,7 @@ PostBlobs(e) ==
     [] OTHER           -> blobs
 PostN(e) ==
   CASE e.op = "reset" -> 0
-    [] e.op = "key"   -> IF e.kid > nkeys THEN e.kid ELSE nkeys
+    [] e.op = "key"   -> IF e.kid > nkeys /\ e.kid < GivenId(0) THEN e.kid ELSE nkeys
     [] OTHER          -> nkeys
 
 TInit == l = 1 /\ bad = <<>> /\ notes = <<>> /\ Init
